@@ -407,3 +407,104 @@ fn c10_hp_pingresp_disconnect_connack() {
     );
     assert!(matches!(r, Err(Error::Peer(PeerError::InvalidPacket))), "C08: a second CONNACK is a protocol violation");
 }
+
+// ---------------------------------------------------------------------------------------------
+// A5: process_received_packet (not an async fn: runs in the unmodified crate)
+// ---------------------------------------------------------------------------------------------
+use crate::mqtt_client::ConnectEvent;
+use crate::{Buffers, ConfigBuilder, Session};
+
+static mut HP_RESULT: u8 = 0;
+static mut HP_CALLS: u8 = 0;
+
+/// stub for `SessionData::handle_packet`: an arbitrary outcome of every kind it can produce
+fn st_handle_packet<'a>(_d: &mut SessionData<'a>, _rt: &mut RuntimeState, _p: ReceivedPacket<'_>) -> Result<bool, Error<Infallible>>
+where
+    'a: 'a,
+{
+    unsafe {
+        HP_CALLS += 1;
+        match HP_RESULT {
+            0 => Ok(true),
+            1 => Ok(false),
+            2 => Err(Error::Disconnected),
+            3 => Err(Error::Peer(PeerError::InvalidPacket)),
+            4 => Err(Error::Resource(ResourceError::PacketTooLarge)),
+            5 => Err(Error::Peer(PeerError::Rejected(ReasonCode::from(kani::any::<u8>())))),
+            _ => Err(Error::Resource(ResourceError::InflightExhausted)),
+        }
+    }
+}
+
+struct NoIo;
+impl embedded_io_async::ErrorType for NoIo {
+    type Error = embedded_io_async::ErrorKind;
+}
+impl embedded_io_async::Read for NoIo {
+    async fn read(&mut self, _b: &mut [u8]) -> Result<usize, Self::Error> {
+        unreachable!()
+    }
+}
+impl embedded_io_async::Write for NoIo {
+    async fn write(&mut self, _b: &[u8]) -> Result<usize, Self::Error> {
+        unreachable!()
+    }
+    async fn flush(&mut self) -> Result<(), Self::Error> {
+        unreachable!()
+    }
+}
+
+// @harness props=C08,C11,C18,C14 tier=quick layer=L3c
+// @harness funcs="Connection::process_received_packet, handle_disconnect, Session::handle_disconnect"
+// @harness sym="decode outcome (packet / malformed / deserialization error), handler outcome (deliver / internal / Disconnected / InvalidPacket / PacketTooLarge / Rejected(any code) / InflightExhausted), prior reader state" bounds="one buffered packet"
+// @harness assumes="decoder and handler replaced by stubs with arbitrary results (their own harnesses: c08_dec_*, c02_hp_* ... c14_hp_*)"
+#[kani::proof]
+#[kani::unwind(6)]
+#[kani::stub(crate::de::PacketReader::take_packet, crate::de::verif_x_de::reader_obs::st_take_packet)]
+#[kani::stub(SessionData::handle_packet, st_handle_packet)]
+fn c08_bad_packet_latches() {
+    use crate::de::verif_x_de::reader_obs;
+    let mut rx = [0xD0u8, 0, 0, 0];
+    let mut tx = [0u8; 8];
+    let mut session = Session::new(ConfigBuilder::new(Buffers::new(&mut rx, &mut tx)));
+    session.packet_reader.commit(2);
+    let _ = session.packet_reader.receive_buffer();
+    assert!(session.packet_reader.packet_available());
+    session.data.outbound.retain_packet(5, 0, 2).unwrap();
+    session.runtime.next_ping = Some(embassy_time::Instant::from_ticks(7));
+    let decode_ok: bool = kani::any();
+    let hp: u8 = kani::any();
+    kani::assume(hp <= 6);
+    unsafe {
+        reader_obs::RP_KIND = if decode_ok { 2 } else { 3 };
+        HP_RESULT = hp;
+        HP_CALLS = 0;
+    }
+    let mut conn = Connection { session: &mut session, io: NoIo, event: ConnectEvent::Connected, live: true };
+    let r = conn.process_received_packet();
+    unsafe {
+        if !decode_ok {
+            assert!(matches!(r, Err(Error::Peer(PeerError::InvalidPacket))), "C08: an undecodable packet must be reported as the invalid-packet error");
+            assert!(!conn.live, "C08/C11: an invalid inbound packet must kill the connection handle");
+            assert!(HP_CALLS == 0, "C08: a rejected packet must not be acted upon");
+        } else {
+            assert!(HP_CALLS == 1);
+            match hp {
+                0 => assert!(matches!(r, Ok(Some(2))) && conn.live, "C04: a deliverable publish is surfaced"),
+                1 => assert!(matches!(r, Ok(None)) && conn.live, "internal progress"),
+                2 => assert!(matches!(r, Err(Error::Disconnected)) && !conn.live, "C11: broker DISCONNECT latches the handle"),
+                3 => assert!(matches!(r, Err(Error::Peer(PeerError::InvalidPacket))) && !conn.live, "C08/C11: protocol violation latches the handle"),
+                4 => assert!(matches!(r, Err(Error::Resource(ResourceError::PacketTooLarge))) && !conn.live, "C14: a mandatory acknowledgement that does not fit closes the connection"),
+                5 => assert!(matches!(r, Err(Error::Peer(PeerError::Rejected(_)))) && conn.live, "C18: a failure reason code is surfaced as Rejected without killing the handle"),
+                _ => assert!(matches!(r, Err(Error::Resource(ResourceError::InflightExhausted))) && conn.live, "InflightExhausted is surfaced, not fatal"),
+            }
+        }
+        if !conn.live {
+            assert!(!conn.session.packet_reader.packet_available() && conn.session.runtime.next_ping.is_none(), "C12: a dead handle leaves reader and timers reset");
+            assert!(conn.session.data.outbound.has_retained(5), "C02: in-flight messages survive the loss of the connection");
+        }
+        assert!(!conn.session.packet_reader.packet_available(), "C08: the packet is consumed exactly once");
+    }
+    kani::cover!(!decode_ok);
+    kani::cover!(decode_ok && hp == 5);
+}
